@@ -95,6 +95,11 @@ pub assume_specification<T, E, F: FnOnce(E) -> T> [Result::<T, E>::unwrap_or_els
 pub assume_specification<T, E> [std::result::Result::<T, E>::unwrap_or] (r: std::result::Result<T, E>, d: T) -> (t: T)
     where E: std::marker::Destruct, T: std::marker::Destruct,
     ensures t == (match r { Ok(v) => v, Err(_) => d });
+// TRUSTED[result-unwrap-or-default]: Result::unwrap_or_default returns the Ok value, or T::default() for an Err (std doc).
+#[verifier::allow(undeclared_external_trait)]
+pub assume_specification<T: Default, E> [std::result::Result::<T, E>::unwrap_or_default] (r: std::result::Result<T, E>) -> (t: T)
+    where E: std::marker::Destruct, T: std::marker::Destruct,
+    ensures r is Ok ==> t == r->Ok_0, r is Err ==> call_ensures(T::default, (), t);
 // TRUSTED[option-or-else]: Option::or_else keeps a Some, otherwise returns what the closure returns (std doc).
 #[verifier::allow(undeclared_external_trait)]
 pub assume_specification<T, F> [std::option::Option::<T>::or_else] (o: std::option::Option<T>, f: F) -> (r: std::option::Option<T>)
